@@ -58,13 +58,24 @@ fn slp_region(m: &ModelGame, cut: usize, len: usize) -> &'static str {
 }
 
 fn slp_cut(bytes: &[u8], cut: usize, skip: bool) -> Result<(), Fail> {
-	match rt::slp_read(&bytes[..cut], skip, cut % 2 == 1) {
+	// hash on for odd cuts: the skip path differs with hashing (reads instead of seeking)
+	let hash = cut % 2 == 1;
+	let mut r = crate::readers::SchedReader::new(&bytes[..cut], crate::readers::Schedule::Full);
+	let o = rt::slp_opts(skip, hash);
+	let out = rt::guard(|| peppi::io::slippi::read(&mut r, Some(&o)));
+	if r.over_budget {
+		return Err(Fail::new(
+			format!("op=truncated slp no_progress skip={} hash={}", skip, hash),
+			format!("file of {} bytes cut at {}: the reader made {} read calls without finishing (loops without consuming input; skip_frames={}, compute_hash={})", bytes.len(), cut, r.reads, skip, hash),
+		));
+	}
+	match out {
 		Out::Err(_) => Ok(()),
 		Out::Ok(g) => Err(Fail::new(
 			format!("op=truncated slp accepted skip={}", skip),
-			format!("file of {} bytes cut at {} was read as a game with {} frames (skip_frames={})", bytes.len(), cut, g.frames.len(), skip),
+			format!("file of {} bytes cut at {} was read as a game with {} frames (skip_frames={}, compute_hash={})", bytes.len(), cut, g.frames.len(), skip, hash),
 		)),
-		Out::Panic(p) => Err(Fail::new(format!("op=truncated slp panic~{}", rt::panic_site(&p)), format!("cut at {} (skip_frames={}): {}", cut, skip, p))),
+		Out::Panic(p) => Err(Fail::new(format!("op=truncated slp panic~{}", rt::panic_site(&p)), format!("cut at {} (skip_frames={}, compute_hash={}): {}", cut, skip, hash, p))),
 	}
 }
 
@@ -389,6 +400,22 @@ fn exhaustive_slpp_models() -> Vec<ModelGame> {
 	let b = simple_model((2, 0, 1), &[(2, false)], 3, 72, Pattern::Random, 1, true);
 	let c = simple_model((3, 3, 0), &[(0, false), (3, false)], 2, 73, Pattern::Special, 1, false);
 	vec![a, b, c]
+}
+
+/// fuzz entry: DNA -> finished model + cut offset; every such prefix must be rejected
+pub fn fuzz_dna(dna: &[u8]) -> Result<(), Fail> {
+	let mut d = Dna::new(dna);
+	let cutsel = d.u32();
+	let skip = d.u8() & 1 != 0;
+	let mut cfg = GenCfg::small();
+	cfg.finished = true;
+	let mut m = crate::gen::gen_model(&mut d, &cfg);
+	if m.end == EndSpec::None {
+		m.end = EndSpec::One(vec![0; spec::end_size(m.v())]);
+	}
+	let bytes = m.encode();
+	let cut = ((cutsel as u64 * bytes.len() as u64) >> 32) as usize;
+	slp_cut(&bytes, cut, skip).map_err(|f| f.with_file("slp", &bytes[..cut]))
 }
 
 pub fn case(_ctx: &Ctx, kind: &str, params: &Value, _counting: bool) -> Result<(), Fail> {
